@@ -305,3 +305,9 @@ Proof.
   intros. unfold x_copy_sparse. rewrite x_copy_sparse_loop_ok. unfold out_app. cbn [app].
   destruct (copy_sparse fuel bs flen 0 sd sh ans); reflexivity.
 Qed.
+
+(* libfs::next_sparse_segments *)
+Theorem x_next_segment_ok : forall sd sh len pos, x_next_segment sd sh len pos = next_segment sd sh len pos.
+Proof.
+  intros. unfold x_next_segment, next_segment. destruct (sd pos) as [o| |e]; reflexivity.
+Qed.
